@@ -431,6 +431,50 @@ func checkC19(c *Ctx) {
 		}
 	}
 
+	// R19.9 the watcher goroutine cannot be held up for ever before (or beside) its event loop: every loop in it other than
+	// the loops that receive from the watcher's channels is bounded (a range over the directory list) or leaves on
+	// cancellation. A retry loop around watcher.Add whose ctx.Done() case only leaves the select keeps spinning after the
+	// watcher was closed: close(change) never runs, and while it waits no modification is delivered.
+	{
+		n9, bad9 := 0, ""
+		var badPos token.Pos
+		for _, b := range worker.Blocks {
+			for _, sc := range b.Succs {
+				if !sc.Dominates(b) {
+					continue
+				}
+				if _, bounded := loopKind(sc); bounded {
+					continue
+				}
+				body := loopBody(sc, b)
+				recvLoop := false
+				for blk := range body {
+					for _, in := range blk.Instrs {
+						if u, ok := in.(*ssa.UnOp); ok && u.Op == token.ARROW {
+							ts := vw.Term(resolveValue(u.X)).String()
+							if strings.HasSuffix(ts, ".Events") || strings.HasSuffix(ts, ".Errors") {
+								recvLoop = true // ends when the watcher is closed (R19.4)
+							}
+						}
+					}
+				}
+				if recvLoop {
+					continue
+				}
+				n9++
+				if ok9, why := loopLeavesOnCancel(sc, b, func(v ssa.Value) bool { return isCtxDone(v) || isCtxDoneOfParam(v) }); !ok9 {
+					bad9, badPos = why, firstPos(sc)
+				}
+			}
+		}
+		pos9 := c.P.Pos(worker.Pos())
+		if badPos != token.NoPos {
+			pos9 = c.P.Pos(badPos)
+		}
+		c.Check(bad9 == "", "R19.9", "config.DetectDeviceConfigChanges/no-unbounded-wait-outside-the-event-loop", pos9,
+			fmt.Sprintf("%d unbounded loop(s) beside the event loop, each leaves on cancellation", n9), "in the watcher goroutine: "+bad9+" - the notification stream never ends and changes are not delivered meanwhile")
+	}
+
 	// R19.6 the loader only reads: a directory the loader (re)creates after the watcher was set up is loaded but never watched
 	for _, name := range []string{"LoadDeviceConfigs", "loadDirectory"} {
 		lf := c.P.Func(pkgConfig, "", name)
@@ -483,6 +527,7 @@ func checkC19(c *Ctx) {
 	c.MinCount("R19.4", 3)
 	c.MinCount("R19.5", 2)
 	c.MinCount("R19.7", 1)
+	c.MinCount("R19.9", 1)
 	c.DecidedClause("the watcher observes exactly the four directories the loader reads; a notification is sent iff the event is a write and the lower-cased name has the loader's suffix; the hand-off observes cancellation; close(change) is deferred first in the only sender, a goroutine closes the watcher on cancellation and the loop ranges over the watcher's event channel; the consumer cancels the per-cycle device context on a notification and the outer loop reloads the configurations")
 	c.UndecidedClause("kernel notification timing and coalescing (inotify), fsnotify internals; the result of watcher.Add is dropped (a directory that cannot be watched is silently ignored - note, not part of the statement)")
 }
